@@ -61,6 +61,18 @@ PROPS = {
         assumptions=['e-mail claim of at most 320 bytes (RFC 5321: 254); timestamps of ten digits (until 2286)'],
         explanation='Lean: chunk_line_le_4096, whole_line_le_4096, main_line_le_4096, current_chunk_fits; facts: the sessions.Options literal and its assignment in Save; tie: exact line lengths; oracle: attributes and length of every raw Set-Cookie line',
     ),
+    'C20': dict(
+        family='discovery', fields=['r', 'doc', 'times'], timeout=1500,
+        facts=['initializeMetadataLoops', 'metadataRetryIntervalSec', 'discoveryMaxRetries', 'discoveryBaseDelaySec', 'discoveryMaxDelaySec', 'initWaitSec'],
+        trusted=['real-time liveness is represented by the virtual clock (testing/synctest); the metadata cache\'s 5-minute clean-up goroutine is stopped through the overlay hook (it only drops an already expired document) '
+                 'because a goroutine waiting for the mutex GetMetadata holds during a whole round is not durably blocked under synctest',
+                 'the 5-minute cap of one discovery round is not modelled (unreachable for answers of under a minute)'],
+        rule='one case = one request against an instance created by New() with a scripted discovery endpoint (0-40 faults of kinds refused / 5xx / malformed JSON / slow-then-fail, recovery with immediate or slow answers, '
+             'a document without issuer, further faults and changed documents hitting the hourly refresh), arriving before, during and after recovery, one third with a client that gives up after 1-40 s; plus one comparison of all '
+             'discovery attempt instants per scenario; distinct = distinct (script position, answer); non-trivial = all',
+        assumptions=['requests never arrive exactly on a timer boundary (select would choose at random)'],
+        explanation='Lean: fail_closed, not_served_before_init, empty_issuer_never_served, heals (any finite fault script, bound on the instant), served_after_init, latest_wins, round_first_healthy; facts: initializeMetadata loops, constants; tie: status of every request, document in force, exact virtual instants of every discovery attempt incl. the hourly refresh; oracle: nothing but 503/408 before a healthy answer completed, serving hours after recovery',
+    ),
     'C02': dict(
         family='jwt', fields=['r'], crash_is_violation=True,
         facts=['supportedAlgs', 'hashAlgs', 'rsaAlgPrefixes', 'ecAlgPrefixes', 'skewFutureSec', 'skewPastSec', 'nbfTypeChecked', 'ecdsaSigLenExact'],
